@@ -4,6 +4,7 @@ import AwsVerif.Proofs.C05.Utf8
 import AwsVerif.Proofs.C05.Utf8Spec
 import AwsVerif.Proofs.C05.Avx2DecMain
 import AwsVerif.Proofs.C05.Avx2EncMain
+import AwsVerif.Proofs.C05.GenBridge
 /-!
 # C05 — base64, hex and UTF-8 codecs are exact, canonical and CPU-path independent
 
@@ -462,5 +463,74 @@ theorem c05_b64_avx2_lanes :
 example : (AwsVerif.CodecAvx2.base64DecodeAvx2 ((List.replicate 40 65) ++ [90, 109, 56, 61]) 0 32).wr =
       List.replicate 30 0 ++ [102, 111] ∧
     (AwsVerif.CodecAvx2.base64DecodeAvx2 [65, 66, 61, 61] 0 3).err = some .invalidBase64 := by decide +kernel
+
+/-! ## bridge: model = layer generated from the current `source/encoding.c` (gen/codec_gen.py → `Gen/CodecFns.lean`) -/
+
+/-- the three length functions of the model are the functions translated from the source (5 = AWS_ERROR_OVERFLOW_DETECTED),
+and `aws_base64_compute_decoded_len` (9 = AWS_ERROR_INVALID_BASE64_STR) with the two characters it reads as parameters -/
+theorem c05_gen_lengths (n : Nat) (t : List UInt8) (hl : t.length < 2 ^ 64) :
+    AwsVerif.Gen.CodecFns.aws_base64_compute_encoded_len n = resOf (computeEncodedLen n) 5 ∧
+    AwsVerif.Gen.CodecFns.aws_hex_compute_encoded_len n = resOf (hexComputeEncodedLen n) 5 ∧
+    AwsVerif.Gen.CodecFns.aws_hex_compute_decoded_len n = resOf (hexComputeDecodedLen n) 5 ∧
+    AwsVerif.Gen.CodecFns.verif_c05_declen t.length (t.getD (t.length - 1) 0).toNat (t.getD (t.length - 2) 0).toNat =
+      resOf (computeDecodedLen t) 9 :=
+  ⟨gen_b64_encoded_len n, gen_hex_encoded_len n, gen_hex_decoded_len n, gen_b64_decoded_len t hl⟩
+
+/-- portable base64 encoder: one loop iteration through the generated block assembly (`i+1 < len`, `i+2 < len` as flags) and
+the four generated table indices; block_count, remainder_count, the offsets and the character of the padding stores -/
+theorem c05_gen_b64_encode (b0 b1 b2 : Nat) (h1 h2 : Bool) (n outLen : Nat) (hn : n + 2 < 2 ^ 64)
+    (hb : outLen + (n + 2) / 3 * 4 < 2 ^ 64) (hpos : n > 0) :
+    encQuad b0 (if h1 then b1 else 0) (if h2 then b2 else 0) =
+      (let blk := AwsVerif.Gen.CodecFns.verif_c05_enc_block b0 b1 b2 (if h1 then 1 else 0) (if h2 then 1 else 0)
+       [encChar (AwsVerif.Gen.CodecFns.verif_c05_enc_idx0 blk), encChar (AwsVerif.Gen.CodecFns.verif_c05_enc_idx1 blk),
+        encChar (AwsVerif.Gen.CodecFns.verif_c05_enc_idx2 blk), encChar (AwsVerif.Gen.CodecFns.verif_c05_enc_idx3 blk)]) ∧
+    AwsVerif.Gen.CodecFns.verif_c05_block_count n = (n + 2) / 3 ∧ AwsVerif.Gen.CodecFns.verif_c05_remainder n = n % 3 ∧
+    AwsVerif.Gen.CodecFns.verif_c05_pad_idx1 outLen (AwsVerif.Gen.CodecFns.verif_c05_block_count n) = outLen + ((n + 2) / 3 * 4 - 1) ∧
+    AwsVerif.Gen.CodecFns.verif_c05_pad_idx2 outLen (AwsVerif.Gen.CodecFns.verif_c05_block_count n) = outLen + ((n + 2) / 3 * 4 - 2) ∧
+    AwsVerif.Gen.CodecFns.verif_c05_pad_char1 = 61 ∧ AwsVerif.Gen.CodecFns.verif_c05_pad_char2 = 61 :=
+  ⟨gen_encQuad b0 b1 b2 h1 h2, gen_encPad n outLen hn hb hpos⟩
+
+/-- portable base64 decoder: acceptance test of `s_base64_get_decoded_value` on the table value, the three output-byte
+expressions (identical in body loop and final quantum — checked by the generator), the two trailing-bits tests, the
+"not in the alphabet" marker -/
+theorem c05_gen_b64_decode (c : UInt8) (s : Bool) (v1 v2 v3 v4 : Nat) (h1 : v1 < 256) (h2 : v2 < 256) :
+    decVal c s = (if AwsVerif.Gen.CodecFns.verif_c05_accept (tbl AwsVerif.Gen.CodecTables.base64DecodingTable c.toNat) (if s then 1 else 0)
+      then some (tbl AwsVerif.Gen.CodecTables.base64DecodingTable c.toNat) else none) ∧
+    (dec0 v1 v2).toNat = AwsVerif.Gen.CodecFns.verif_c05_dec0 v1 v2 ∧ (dec1 v2 v3).toNat = AwsVerif.Gen.CodecFns.verif_c05_dec1 v2 v3 ∧
+    (dec2 v3 v4).toNat = AwsVerif.Gen.CodecFns.verif_c05_dec2 v3 v4 ∧
+    ((v2 &&& 0x0F) != 0) = AwsVerif.Gen.CodecFns.verif_c05_trail2 v2 ∧ ((v3 &&& 0x03) != 0) = AwsVerif.Gen.CodecFns.verif_c05_trail3 v3 ∧
+    AwsVerif.Gen.CodecFns.invalidMarker = 0xDD :=
+  ⟨gen_decVal c s, gen_dec0 v1 v2 h1, gen_dec1 v2 v3 h2, gen_dec2 v3 v4, (gen_trail v2).1, (gen_trail v3).2, gen_invalidMarker⟩
+
+/-- hex: the two digit indices (same text in aws_hex_encode and aws_hex_encode_append_dynamic — checked by the generator), the
+pair combination of aws_hex_decode, and `s_hex_decode_char_to_int` as translated from the source on all 256 bytes -/
+theorem c05_gen_hex (b h l : Nat) :
+    ((b >>> 4) &&& 0x0f = AwsVerif.Gen.CodecFns.verif_c05_hex_idx0 b ∧ b &&& 0x0f = AwsVerif.Gen.CodecFns.verif_c05_hex_idx1 b) ∧
+    (((h <<< 4) % 256) ||| l) % 256 = AwsVerif.Gen.CodecFns.verif_c05_hex_pair h l ∧
+    (∀ c, c < 256 → hexVal (UInt8.ofNat c) =
+      (if (AwsVerif.Gen.CodecFns.s_hex_decode_char_to_int c true).1 = 0 then some (AwsVerif.Gen.CodecFns.s_hex_decode_char_to_int c true).2 else none)) :=
+  ⟨gen_hex_idx b, gen_hex_pair h l, gen_hexVal⟩
+
+/-- UTF-8: one step of the decoder through the generated lead-byte classification (remaining / codepoint / min per branch),
+continuation test, accumulation, overlong and surrogate tests; finalize's verdict -/
+theorem c05_gen_utf8 (d : Utf8) (b : UInt8) :
+    (d.remaining = 0 → updateByte d b =
+      if AwsVerif.Gen.CodecFns.verif_c05_utf8_lead_remaining b.toNat = 255 then (d, some .invalidUtf8, none)
+      else ({ remaining := AwsVerif.Gen.CodecFns.verif_c05_utf8_lead_remaining b.toNat,
+              codepoint := AwsVerif.Gen.CodecFns.verif_c05_utf8_lead_codepoint b.toNat,
+              min := AwsVerif.Gen.CodecFns.verif_c05_utf8_lead_min b.toNat }, none,
+            if AwsVerif.Gen.CodecFns.verif_c05_utf8_lead_remaining b.toNat = 0 then
+              some (AwsVerif.Gen.CodecFns.verif_c05_utf8_lead_codepoint b.toNat) else none)) ∧
+    (d.remaining ≠ 0 → updateByte d b =
+      if AwsVerif.Gen.CodecFns.verif_c05_utf8_not_cont b.toNat then (d, some .invalidUtf8, none) else
+      let cp := AwsVerif.Gen.CodecFns.verif_c05_utf8_accum d.codepoint b.toNat
+      let d' : Utf8 := { d with codepoint := cp, remaining := d.remaining - 1 }
+      if d.remaining - 1 = 0 then
+        if AwsVerif.Gen.CodecFns.verif_c05_utf8_overlong cp d.min then (d', some .invalidUtf8, none)
+        else if AwsVerif.Gen.CodecFns.verif_c05_utf8_surrogate cp then (d', some .invalidUtf8, none)
+        else (d', none, some cp)
+      else (d', none, none)) ∧
+    (finalize d).2 = (if d.remaining = 0 then none else some .invalidUtf8) :=
+  ⟨fun h => gen_utf8_lead d h b, fun h => gen_utf8_cont d h b, gen_utf8_finalize d⟩
 
 end AwsVerif.Props.C05
